@@ -624,7 +624,12 @@ func bFor(intp *Interpreter) error {
 		} else if err != nil {
 			return err
 		}
-		val += increment
+		next := val + increment
+		if (increment > 0 && next < val) || (increment < 0 && next > val) {
+			// the exact next value is beyond every representable limit
+			break
+		}
+		val = next
 	}
 	return nil
 }
